@@ -214,7 +214,7 @@ def gen_config(rs, name, d):
     kw.update(n_clusters=int(rs.randint(2, 4)), max_iter=int(rs.randint(1, 4)),
               learning_rate=float([0.01, 0.05, 0.1][rs.randint(3)]), solver=["adam", "sgd"][rs.randint(2)])
     if fl.accepts(cls, "batch_size"):
-        kw["batch_size"] = [None, None, 4, 5][rs.randint(4)]
+        kw["batch_size"] = [None, None, 4, 5, 64][rs.randint(5)]      # 64 exceeds every generated sample count (one batch; legal)
     if fl.accepts(cls, "gemini"):
         r = rs.rand()
         if r < 0.75:
